@@ -69,7 +69,8 @@ def run_sequences(chk, name, cases, results, case_fn, site, group=3, limit=30, t
     again in groups of `group` inside ONE process, with the API's default cache clearing between calls (clear=True).  A failure
     of a case inside a sequence is therefore due to what ran before it in the same process."""
     import random
-    ok = [c for c, r in zip(cases, results) if r.get("status") == "ok" and c.get("kind") not in ("sequence",)]
+    # (Fortran cases stay out: a compiled extension module of the same name cannot be imported twice into one process)
+    ok = [c for c, r in zip(cases, results) if r.get("status") == "ok" and c.get("kind") not in ("sequence",) and c.get("backend") != "fortran"]
     if len(ok) < 2:
         return []
     seqs = []
